@@ -599,11 +599,31 @@ def _r2(ctx, pkg):
     for f, line, s in bad:
         # render.py checks directories with os.listdir only for emptiness
         fn = _enclosing(pkg.modules[f], None, line)
-        if s == "os.listdir" and f in ("naunet/console/commands/render.py", "naunet/console/commands/example.py"):
+        if s in ("os.listdir", "os.scandir") and _only_emptiness_tested(pkg.modules[f], line, s):
+            # (the commands check whether an output directory is empty: neither the names nor their order reach anything written)
             ctx.ok("R2", f"{f}:{fn}:{s}", (f, line), "directory listing used only as an emptiness test")
             continue
         ctx.bad("R2", f"{f}:{fn}:{s}", (f, line), f"`{s}` is a source of run-to-run variation in a module that takes part in code generation")
     ctx.floor("R2", "datetime.now sites", len(now), 2)
+
+
+def _only_emptiness_tested(mod, line, fname) -> bool:
+    """every call of `fname` on that line is used for its truth value / length only: the operand of `not`, the test of an if / while /
+    conditional expression, an operand of and / or, the argument of len() / bool() / any()"""
+    parent = {}
+    for n in ast.walk(mod):
+        for ch in ast.iter_child_nodes(n):
+            parent[id(ch)] = n
+    calls = [n for n in ast.walk(mod) if isinstance(n, ast.Call) and getattr(n, "lineno", None) == line and ast.unparse(n.func) == fname]
+    if not calls:
+        return False
+    for c in calls:
+        p_ = parent.get(id(c))
+        ok = (isinstance(p_, ast.UnaryOp) and isinstance(p_.op, ast.Not)) or (isinstance(p_, (ast.If, ast.While, ast.IfExp)) and p_.test is c) \
+            or isinstance(p_, ast.BoolOp) or (isinstance(p_, ast.Call) and isinstance(p_.func, ast.Name) and p_.func.id in ("len", "bool", "any") and c in p_.args)
+        if not ok:
+            return False
+    return True
 
 
 def _helper_of(pkg, qual, owner_qual) -> bool:
